@@ -339,6 +339,92 @@ pub fn run(tier: &str) -> i32 {
             stop.store(true, std::sync::atomic::Ordering::Release);
         });
     }
+    // free-running end to end: the real replication loop on its own thread, one secondary that acknowledges every message
+    // the instant it sees it (on another thread, as its link does): when everything has been acknowledged nothing is pending
+    let fast_ack_ops = if thorough { 20_000 } else { 3_000 };
+    let mut fast_ack_done = 0u64;
+    {
+        use futures::channel::mpsc::channel;
+        use nundb::bo::{ClusterMember, ClusterRole};
+        let dir = fresh_dir("c15-fastack");
+        nundb::verif::set_dir(Some(dir.clone()));
+        let addr = "10.3.0.1:3014".to_string();
+        let (repl_tx, repl_rx) = channel::<String>(1 << 20);
+        let (sup_tx, _sup_rx) = channel::<String>(1000);
+        let dbs = Arc::new(Databases::new("admin".into(), "pwd".into(), addr.clone(), addr.clone(), sup_tx, repl_tx, std::collections::HashMap::new(), 1000, true));
+        dbs.node_state.store(ClusterRole::Primary as usize, std::sync::atomic::Ordering::SeqCst);
+        {
+            let (d, dir1) = (dbs.clone(), dir.clone());
+            std::thread::spawn(move || {
+                nundb::verif::set_dir(Some(dir1));
+                let _ = std::panic::catch_unwind(std::panic::AssertUnwindSafe(|| futures::executor::block_on(nundb::replication_ops::start_replication_thread(repl_rx, d))));
+            });
+        }
+        let member = "10.3.0.2:3014".to_string();
+        let (mtx, mut mrx) = channel::<String>(1 << 20);
+        dbs.add_cluster_member(ClusterMember { name: member.clone(), role: ClusterRole::Secoundary, sender: Some(mtx) });
+        let stop = std::sync::atomic::AtomicBool::new(false);
+        let acked = std::sync::atomic::AtomicU64::new(0);
+        let mut adm = crate::common::session::Session::new();
+        adm.call(&dbs, "auth admin pwd");
+        adm.call(&dbs, "create-db fa tok");
+        adm.call(&dbs, "use-db fa tok");
+        std::thread::scope(|sc| {
+            let (dbs2, stop2, acked2, member2) = (dbs.clone(), &stop, &acked, member.clone());
+            sc.spawn(move || {
+                let mut link = crate::common::session::Session::new();
+                link.call(&dbs2, "auth admin pwd");
+                loop {
+                    match mrx.try_next() {
+                        Ok(Some(m)) => {
+                            if let Some(rest) = m.strip_prefix("rp ") {
+                                let id = rest.split(' ').next().unwrap_or("0");
+                                link.call_raw(&dbs2, &format!("ack {} {}", id, member2));
+                                acked2.fetch_add(1, std::sync::atomic::Ordering::AcqRel);
+                            }
+                        }
+                        _ => {
+                            if stop2.load(std::sync::atomic::Ordering::Acquire) {
+                                break;
+                            }
+                            std::hint::spin_loop();
+                        }
+                    }
+                }
+            });
+            let big = "v".repeat(200_000);
+            for i in 0..fast_ack_ops {
+                // now and then a large value: the loop is busy with the message for longer
+                if i % 50 == 0 {
+                    adm.call(&dbs, &format!("set k{} {}", i % 7, big));
+                } else {
+                    adm.call(&dbs, &format!("set k{} v{}", i % 7, i));
+                }
+                fast_ack_done += 1;
+            }
+            // everything sent has been acknowledged when the counts meet and stay there
+            let deadline = std::time::Instant::now() + std::time::Duration::from_secs(30);
+            let mut last = (u64::MAX, std::time::Instant::now());
+            loop {
+                let a = acked.load(std::sync::atomic::Ordering::Acquire);
+                if a != last.0 {
+                    last = (a, std::time::Instant::now());
+                }
+                if (a >= fast_ack_done && last.1.elapsed() > std::time::Duration::from_millis(300)) || std::time::Instant::now() > deadline {
+                    break;
+                }
+                std::thread::sleep(std::time::Duration::from_millis(5));
+            }
+            stop.store(true, std::sync::atomic::Ordering::Release);
+        });
+        let a = acked.load(std::sync::atomic::Ordering::Acquire);
+        let pending = dbs.pending_opps.read().map(|p| p.len()).unwrap_or(usize::MAX);
+        if a < fast_ack_done {
+            v.inconclusive(&format!("fast-ack part: only {} of {} messages reached the secondary within 30 s", a, fast_ack_done));
+        } else if pending != 0 {
+            v.report(json!({"check": "pending", "problem": "operations-left-pending-although-every-message-was-acknowledged", "event": "secondary-acknowledges-at-once"}), json!({"writes": fast_ack_done, "acknowledgements_sent": a, "left_pending": pending}));
+        }
+    }
     // observable through the client command too
     {
         let dbs = new_dbs();
@@ -352,7 +438,7 @@ pub fn run(tier: &str) -> i32 {
     ev.evaluations = evaluated.load(std::sync::atomic::Ordering::SeqCst) + n_random as u64 + race_rounds as u64 + cl.runs;
     ev.distinct_nontrivial = distinct_orders.load(std::sync::atomic::Ordering::SeqCst);
     ev.exhaustive = Some(true);
-    ev.rule = format!("all {} sequences of 1-{} events over register(op, node) / ack(op, node) for 2 operations x 2 targeted nodes + a never-targeted node + an unknown operation (exhaustive), {} random sequences of 5-16 events over 3 operations x 3 nodes + foreign/unknown acks, {} rounds of 4 threads racing to acknowledge 9 (op,node) pairs with duplicates, {} rounds of an acknowledgement racing the registration of the same operation for a second node (ack took effect first in {}, registration first in {}), and {} simulated-cluster runs whose pending count must be 0 at quiescence; after every event the real pending set and counters are compared with a set-based model; distinct_nontrivial = exhaustively enumerated distinct event orders that contain an acknowledgement after a registration", total, depth, n_random, race_rounds, reg_rounds, reg_seen_both_orders.1, reg_seen_both_orders.0, cl.runs);
+    ev.rule = format!("all {} sequences of 1-{} events over register(op, node) / ack(op, node) for 2 operations x 2 targeted nodes + a never-targeted node + an unknown operation (exhaustive), {} random sequences of 5-16 events over 3 operations x 3 nodes + foreign/unknown acks, {} rounds of 4 threads racing to acknowledge 9 (op,node) pairs with duplicates, {} rounds of an acknowledgement racing the registration of the same operation for a second node (ack took effect first in {}, registration first in {}), {} writes through the real replication loop on its own thread with a secondary that acknowledges each message at once from another thread (nothing may be left pending), and {} simulated-cluster runs whose pending count must be 0 at quiescence; after every event the real pending set and counters are compared with a set-based model; distinct_nontrivial = exhaustively enumerated distinct event orders that contain an acknowledgement after a registration", total, depth, n_random, race_rounds, reg_rounds, reg_seen_both_orders.1, reg_seen_both_orders.0, fast_ack_done, cl.runs);
     ev.samples = samples.into_inner().unwrap();
     ev.set("event_classes_seen", json!(classes.lock().unwrap().iter().cloned().collect::<Vec<_>>()));
     ev.set("cluster_runs_with_pending_zero_at_quiescence", json!(cl.runs));
